@@ -933,6 +933,7 @@ func TestVerif(t *testing.T) {
 	var cases []string
 	distinct := map[string]bool{}
 	scen := map[string]interface{}{}
+	sigSeen := map[string]int{}
 	for ji, c := range jobs {
 		dir := filepath.Join(rootDir, fmt.Sprintf("case%d", ji))
 		o := runCase(t, c, dir)
@@ -1015,8 +1016,12 @@ func TestVerif(t *testing.T) {
 		res.Distribution["blocks-committed"] += int(o.height)
 		res.Distribution["heights-DA-included"] += int(o.included)
 		for vi, sig := range o.viol {
+			sigSeen[sig]++
+			if sigSeen[sig] > 3 {
+				continue
+			}
 			rp := c
-			if c.Scenario == "" {
+			if c.Scenario == "" && sigSeen[sig] == 1 {
 				rp = shrinkCase(t, c, sig, filepath.Join(rootDir, fmt.Sprintf("shrink%d", ji)))
 			}
 			res.Violations = append(res.Violations, vgen.Violation{Signature: sig, What: o.what[vi], Case: ji, Replay: rp})
@@ -1043,7 +1048,7 @@ func TestVerif(t *testing.T) {
 		res.Extra["part_B_scenarios"] = scen
 	}
 	res.Distinct = len(distinct)
-	res.Rule = "the node's loop fan-out as in FullNode.Run (one-slot errCh, five loops per mode, select on errCh / parent context, wg.Wait; compared with node/full.go on every run), real block.Manager / Reaper / store, unmodified loops, in a synctest bubble; doubles: execution layer (per-call delay, cancellation lag, may ignore its context, may fail from a height on), FIFO sequencer, DA layer (delays, every k-th call fails), broadcasters, P2P stores; aggregator cases (55%): genesis 0..5 s in the past or 0.1..6 s in the future, lazy 30%, initial height 1 or 5, pending limit 0/2/5, mempool 0/150/700 ms, DA fast/slow; full-node cases (45%): the proposer's chain of 2..8 blocks made by a real aggregator Manager and submitted with its own code, delivered by DA, P2P or both; stop instant 0, <50 ms or uniform in 0..12 s; verdict 1 s (virtual) after the stop request; plus one fixed scenario per operation the regenerated table lists as not cancellable; non-trivial = at least one block committed; distinct = distinct (mode, lazy, genesis sign, parking positions, stuck positions)"
+	res.Rule = "the node's loop fan-out as in FullNode.Run (one-slot errCh, five loops per mode, select on errCh / parent context, wg.Wait; compared with node/full.go on every run), real block.Manager / Reaper / store, unmodified loops, in a synctest bubble; doubles: execution layer (per-call delay, cancellation lag, may ignore its context, may fail from a height on), FIFO sequencer, DA layer (delays, every k-th call fails), broadcasters, P2P stores; aggregator cases (55%): genesis 0..5 s in the past or 0.1..4.1 s in the future, lazy 30%, initial height 1 or 5, pending limit 0/2/5, mempool 0/150/700 ms, DA fast/slow; full-node cases (45%): the proposer's chain of 2..8 blocks made by a real aggregator Manager and submitted with its own code, delivered by DA, P2P or both; stop instant 0, <50 ms or uniform in 0..12 s; verdict 1 s (virtual) after the stop request; plus one fixed scenario per operation the regenerated table lists as not cancellable; non-trivial = at least one block committed; distinct = distinct (mode, lazy, genesis sign, parking positions, stuck positions)"
 	sort.Strings(dt.defs)
 	res.Cases = len(cases)
 	header := "From Coq Require Import String NArith List Bool.\nFrom Verif Require Import Model.StopProto gen.BlockPoints Check.StopCheck."
